@@ -16,6 +16,7 @@ import (
 // ---------- non-JSON Go values the harness can plant in a document ----------
 
 type myStruct struct{ A int }
+type myPtrStruct struct{ B int }
 type myFuncStruct struct{ F func() }
 type mySlice []interface{}
 type myMap map[string]interface{}
@@ -69,6 +70,8 @@ var kinds = []kindT{
 	{"accessor", func() interface{} { return jsonpath.Accessor{} }},
 	{"bytes", func() interface{} { return []byte("ab") }},
 	{"rune", func() interface{} { return 'x' }},
+	// a fresh pointer on every use: two occurrences are deeply equal but not identical
+	{"freshptr", func() interface{} { return &myPtrStruct{B: 9} }},
 }
 
 func kindIndex(name string) int {
@@ -105,6 +108,9 @@ func opaqueID(v interface{}) int {
 				return i + 1
 			}
 			if reflect.ValueOf(w).Pointer() == reflect.ValueOf(v).Pointer() {
+				return i + 1
+			}
+			if _, ok := v.(*myPtrStruct); ok {
 				return i + 1
 			}
 		default:
